@@ -165,9 +165,26 @@ def coq_build(jobs: int = 8) -> tuple[bool, str]:
         return rc == 0, log
 
 
-def forbidden_scan() -> list[str]:
+def dep_closure(start: Path) -> list[Path]:
+    """the .v files Props/<prop>.v depends on inside the development (by its Require lines)"""
+    todo, seen = [start], []
+    while todo:
+        f = todo.pop()
+        if f in seen or not f.exists():
+            continue
+        seen.append(f)
+        txt = re.sub(r"\(\*.*?\*\)", "", f.read_text(), flags=re.S)
+        for m in re.finditer(r"From\s+PW\s+Require\s+(?:Import|Export)\s+([^.]*)\.", txt):
+            for name in m.group(1).split():
+                todo.append(COQ / "theories" / (name.replace(".", "/") + ".v"))
+        for m in re.finditer(r"Require\s+(?:Import|Export)\s+PW\.([A-Za-z0-9_.]+)", txt):
+            todo.append(COQ / "theories" / (m.group(1).replace(".", "/") + ".v"))
+    return seen
+
+
+def forbidden_scan(files=None) -> list[str]:
     hits = []
-    for p in sorted((COQ / "theories").rglob("*.v")):
+    for p in (files if files is not None else sorted((COQ / "theories").rglob("*.v"))):
         txt = re.sub(r"\(\*.*?\*\)", "", p.read_text(), flags=re.S)
         depth = 0
         for i, line in enumerate(txt.splitlines(), 1):
@@ -198,7 +215,7 @@ def proof_gate(prop: str) -> dict:
     thms = re.findall(r"^\s*(?:Theorem|Lemma|Corollary)\s+([A-Za-z0-9_']+)", src, flags=re.M)
     res["theorems"] = thms
     res["obligations"] = len(thms)
-    hits = forbidden_scan()
+    hits = forbidden_scan(dep_closure(f))
     if hits:
         res["error"] = "forbidden vernacular: " + "; ".join(hits[:5])
         return res
@@ -287,10 +304,13 @@ def model_eval(tag: str, imports: str, term: str, prelude: str = "") -> str:
 
 # ---------------------------------------------------------------------------- findings / evidence
 def known_findings(prop: str) -> list[dict]:
+    entries = []
     p = VERIF / "known_findings.json"
-    if not p.exists():
-        return []
-    return [e for e in json.loads(p.read_text())["entries"] if e["property"] == prop]
+    if p.exists():
+        entries += json.loads(p.read_text())["entries"]
+    for q in sorted((VERIF / "known_findings.d").glob("*.json")) if (VERIF / "known_findings.d").exists() else []:
+        entries += json.loads(q.read_text())["entries"]
+    return [e for e in entries if e["property"] == prop]
 
 
 def write_replay(prop: str, payload: dict) -> str:
